@@ -876,3 +876,41 @@ Proof.
   intros ev Hin Hk. rewrite Forall_forall in F.
   eapply run_checksat_exact_lemma; eauto. apply F. exact Hin.
 Qed.
+
+(* ------------------------------------------------------------------ the repaired reader never panics; a broken pipe is never a success *)
+
+Lemma rr_loop_no_panic : forall v fuel resp w l, rr_loop v fuel resp w <> Panic l.
+Proof.
+  intros v fuel. induction fuel as [|f IH]; intros resp w l; cbn [rr_loop];
+    destruct (0 <? count_parens resp)%Z; try discriminate.
+  destruct (read_line w) as [x w1|]; [|discriminate].
+  destruct v; [apply IH|]. destruct (is_empty x); [discriminate | apply IH].
+Qed.
+
+Lemma error_msg_fix_some : forall t, error_msg_fix t <> None.
+Proof.
+  intros t. unfold error_msg_fix.
+  destruct (find_quote t); [|discriminate]. destruct (rfind_quote t); [|discriminate].
+  destruct (_ <? _); discriminate.
+Qed.
+
+Lemma read_response_fix_no_panic : forall fuel w l, read_response Fix fuel w <> Panic l.
+Proof.
+  intros fuel w l. unfold read_response.
+  destruct (read_line w) as [x w1|]; [|discriminate].
+  pose proof (rr_loop_no_panic Fix fuel x w1) as NP.
+  destruct (rr_loop Fix fuel x w1) as [resp w2|e w2|l'| |]; try discriminate.
+  - destruct (starts_with "(error" (trim_start resp)).
+    + unfold error_msg. pose proof (error_msg_fix_some (trim resp)) as S.
+      destruct (error_msg_fix (trim resp)); [discriminate | congruence].
+    + destruct (try_wait w2) as [[[[] ?]|] ?]; discriminate.
+  - exfalso. eapply NP. reflexivity.
+Qed.
+
+Lemma broken_pipe_is_error : forall v fuel w w1 u w',
+  pop_write w = (WBrokenPipe, w1) -> write_cmd v fuel w <> Ok u w'.
+Proof.
+  intros v fuel w w1 u w' H. unfold write_cmd. rewrite H.
+  destruct (read_response v fuel w1) as [r w2|e w2| | |]; try discriminate.
+  destruct e; discriminate.
+Qed.
